@@ -7,6 +7,7 @@ import numpy as np
 from ..common import Report
 from ..e1 import E1Sink, gate, replay_case, vacuity_floor
 from ..explore import explore
+from ..optsweep import sweep_jobs
 from .. import problems as P
 
 PID = "C02"
@@ -109,6 +110,8 @@ def run(ctx):
     st = explore(nz, ["noise"], 1, sink, stats=st, name="noisy/b1", pos_ok=lambda k, p, r: p % (6 if q else 2) == 0)
     cells = list(start_cells(seeds[0]))
     st = explore(cells, [], 0, sink, stats=st, name="start-cells")
+    sw = sweep_jobs(lambda D, m, o: job(D, "lin", m, "ball_r" if D == 2 else "half", seeds[0], target="sphere_out", opts=o), q, modes=("det", "decl"))
+    st = explore(sw, ["ans", "noise"], 0, sink, stats=st, name="option-variants")
     sink.finish_cov(st)
     rep.set("start_cells", len(cells))
     rep.set("gate_jobs", ng)
